@@ -456,6 +456,8 @@ def _exec_step(W, st, model, log, stats, bump, seed):
 
     # ---- S1 recoverability + S2 deletion guard (every post-state)
     ok_forms = W.orig_ok()
+    if not W.meta.exists():
+        raise Violation("C04.S2", f"{sig0}:{'fault:' + fired['kind'] if fired else 'nofault'}:orig-meta-removed", "the original's .meta was removed | " + ctx)
     if sha1_file(W.meta) != W.meta_sha and W.orig_path() is not None:
         raise Violation("C04.S2", f"{sig0}:orig-meta-changed", "the original's .meta changed | " + ctx)
     gone = not (W.bin if form_before == "bin" else W.cbin).exists()
